@@ -154,6 +154,9 @@ class Model:
         mx = max(self.dur(j, p) for j, p in ops)
         return [(j, p) for j, p in ops if self.dur(j, p) == mx]
 
+    def f_user_none_if_single(self, ops):
+        return [] if len(ops) == 1 else list(ops)
+
     def apply_filters(self, names, ops):
         for name in names:
             ops = getattr(self, "f_" + name)(ops)
@@ -276,8 +279,12 @@ class Model:
                 m: float(sum(1 for o in uns if m in self.machines(*o))) for m in mach_left
             }
         spec["remaining_operations"] = rem
+        # (a user-defined filter may hide the operation that could start first, so the current time can fall back and
+        # an operation that was complete a moment ago is "ongoing" again; its flag was raised when it completed and the
+        # statement only speaks about entities with work left: under such filters only unscheduled operations are compared)
+        user = any(f.startswith("user_") for f in self.filt)
         spec["is_completed"] = {
-            "operations": {oid[o]: float(o in completed) for o in self.ops},
+            "operations": {oid[o]: float(o in completed) for o in (uns if user else self.ops)},
             "jobs": {j: 0.0 for j in jobs_left},
             "machines": {m: 0.0 for m in mach_left},
         }
